@@ -994,7 +994,7 @@ func stepsPrefix(steps []string, readBytesVar string) (string, int) {
 	return sb.String(), closes
 }
 
-type c3arms struct{ any, ty, stList, stArray string }
+type c3arms struct{ any, ty, stList, stArray, misfit string }
 
 // the element loop of TagIntArray / TagLongArray: grow; read; store
 func (c *c3) elemLoop(fs *ast.ForStmt, cnt, read string) (count string, inRange bool, store []ast.Stmt) {
@@ -1109,6 +1109,7 @@ func (c *c3) caseByteArray(cc *ast.CaseClause) c3arms {
 		any:     pre + "Ret (ABytes bs)" + strings.Repeat(")", cl),
 		ty:      pre + "match t with " + strings.Join(arms, " ") + " | _ => Fail eType end" + strings.Repeat(")", cl),
 		stArray: pre + "match t with " + strings.Join(aarms, " ") + " | _ => Fail eType end" + strings.Repeat(")", cl),
+		misfit:  pre + "Fail eType" + strings.Repeat(")", cl),
 	}
 }
 
@@ -1188,7 +1189,8 @@ func (c *c3) caseIntArray(cc *ast.CaseClause) c3arms {
 	}
 	// destination [n]T: `vt.Kind() == reflect.Array && vt.Len() != int(aryLen)` comes before the element kind test
 	return c3arms{any: pre + tail("AInts l"), ty: pre + "match t with " + strings.Join(arms, " ") + " | _ => Fail eType end",
-		stArray: pre + "if negb (Z.of_N (lenN c) =? n)%Z then Fail eType else match t with " + strings.Join(aarms, " ") + " | _ => Fail eType end"}
+		stArray: pre + "if negb (Z.of_N (lenN c) =? n)%Z then Fail eType else match t with " + strings.Join(aarms, " ") + " | _ => Fail eType end",
+		misfit:  pre + "Fail eType"}
 }
 
 func (c *c3) caseLongArray(cc *ast.CaseClause) c3arms {
@@ -1263,7 +1265,8 @@ func (c *c3) caseLongArray(cc *ast.CaseClause) c3arms {
 	}
 	pre, _ := stepsPrefix(st.steps, "")
 	return c3arms{any: pre + anyArm, ty: pre + "match t with " + strings.Join(arms, " ") + " | _ => Fail eType end",
-		stArray: pre + "if negb (Z.of_N (lenN c) =? n)%Z then Fail eType else match t with " + strings.Join(aarms, " ") + " | _ => Fail eType end"}
+		stArray: pre + "if negb (Z.of_N (lenN c) =? n)%Z then Fail eType else match t with " + strings.Join(aarms, " ") + " | _ => Fail eType end",
+		misfit:  pre + "Fail eType"}
 }
 
 func (c *c3) caseList(cc *ast.CaseClause) c3arms {
@@ -1346,7 +1349,7 @@ func (c *c3) caseList(cc *ast.CaseClause) c3arms {
 		}
 		sta = "if (Z.of_N (lenN c) <? n)%Z then Fail eType else " + loop // if vl := val.Len(); vl < int(listLen) { return error }
 	}
-	return c3arms{any: pre + a, ty: pre + t, stList: pre + stl, stArray: pre + sta}
+	return c3arms{any: pre + a, ty: pre + t, stList: pre + stl, stArray: pre + sta, misfit: pre + "Fail eType"}
 }
 
 // the reflect.Struct and reflect.Map clauses of the TagCompound case
@@ -1533,9 +1536,9 @@ func (c *c3) genUnmarshal(usw *ast.SwitchStmt) {
 	arms := map[string]c3arms{}
 	for _, t := range []string{"TagByte", "TagShort", "TagInt", "TagFloat", "TagLong", "TagDouble", "TagString"} {
 		sc := c3scalars[t]
-		arms[t] = c3arms{any: c.scalarAny(sc), ty: c.scalarTy(sc)}
+		arms[t] = c3arms{any: c.scalarAny(sc), ty: c.scalarTy(sc), misfit: "_ <- " + c3Rd[sc.rd] + " ;; Fail eType"}
 	}
-	arms["TagEnd"] = c3arms{any: "Fail eEND", ty: "Fail eEND"}
+	arms["TagEnd"] = c3arms{any: "Fail eEND", ty: "Fail eEND", misfit: "Fail eEND"}
 	arms["TagByteArray"] = c.caseByteArray(c.caseOf(usw, "TagByteArray"))
 	arms["TagIntArray"] = c.caseIntArray(c.caseOf(usw, "TagIntArray"))
 	arms["TagLongArray"] = c.caseLongArray(c.caseOf(usw, "TagLongArray"))
@@ -1567,7 +1570,21 @@ func (c *c3) genUnmarshal(usw *ast.SwitchStmt) {
 	c.out.WriteString("(* Decoder.unmarshal, destination interface{} holding nil *)\nFixpoint gen_any (fuel : nat) (dep : N) (id : N) : dec aval :=\n  match fuel with\n  | O => NoFuel\n  | S f =>\n")
 	c.out.WriteString(chain(func(a c3arms) string { return a.any }, "      "))
 	c.out.WriteString("  end.\n\n")
-	c.out.WriteString("(* Decoder.unmarshal, typed scalar / slice destinations (an interface{} element goes to gen_any; map[string]any: Model/C01.v dmap) *)\nFixpoint gen_ty (fuel : nat) (dep : N) (t : gty) (id : N) : dec tval :=\n  match fuel with\n  | O => NoFuel\n  | S f =>\n      match t with\n      | GAny => a <- gen_any fuel dep id ;; Ret (XAny a)\n      | GMapAny => a <- dmap fuel dep id ;; Ret (XAny a)\n      | _ =>\n")
+	{
+		_, mc := c.caseCompoundSt(c.caseOf(usw, "TagCompound"))
+		if !strings.Contains(mc, "let m0 := match cur with YMap (Some m) => m | _ => [] end in") || !strings.HasSuffix(mc, "m0 ;; Ret (YMap (Some m))") {
+			c.fail(usw, "internal: map clause template changed")
+		}
+		fresh := strings.Replace(mc, "\n    let m0 := match cur with YMap (Some m) => m | _ => [] end in   (* a nil map is made, a used one is added to *)\n   ", "", 1)
+		fresh = strings.Replace(fresh, "m0 ;; Ret (YMap (Some m))", "[] ;; Ret (AMap m)", 1)
+		a := arms["TagCompound"]
+		a.misfit = "match fuel with O => NoFuel | S f => " + fresh + " end"
+		arms["TagCompound"] = a
+		c.out.WriteString("(* Decoder.unmarshal, destination a nil map[string]any: every case but TagCompound ends in the error of its kind test *)\nDefinition gen_map (fuel : nat) (dep : N) (id : N) : dec aval :=\n")
+		c.out.WriteString(chain(func(a c3arms) string { return a.misfit }, "      "))
+		c.out.WriteString(".\n\n")
+	}
+	c.out.WriteString("(* Decoder.unmarshal, typed scalar / slice destinations (an interface{} element goes to gen_any; map[string]any: Model/C01.v dmap) *)\nFixpoint gen_ty (fuel : nat) (dep : N) (t : gty) (id : N) : dec tval :=\n  match fuel with\n  | O => NoFuel\n  | S f =>\n      match t with\n      | GAny => a <- gen_any fuel dep id ;; Ret (XAny a)\n      | GMapAny => a <- gen_map fuel dep id ;; Ret (XAny a)\n      | _ =>\n")
 	c.out.WriteString(chain(func(a c3arms) string { return a.ty }, "      "))
 	c.out.WriteString("      end\n  end.\n\n")
 	// struct-side destinations of Model/C03.v: the recursive decoder is a parameter (self)
@@ -1959,8 +1976,8 @@ func (c *c3) aexpr(e ast.Expr, env map[string]string) string {
 				return fmt.Sprintf("%d", a<<uint(b))
 			}
 		}
-		if x.Op == token.SUB || x.Op == token.ADD {
-			op := map[token.Token]string{token.SUB: "-", token.ADD: "+"}[x.Op]
+		if x.Op == token.SUB || x.Op == token.ADD || x.Op == token.MUL {
+			op := map[token.Token]string{token.SUB: "-", token.ADD: "+", token.MUL: "*"}[x.Op]
 			return "(" + c.aexpr(x.X, env) + " " + op + " " + c.aexpr(x.Y, env) + ")"
 		}
 	case *ast.CallExpr:
